@@ -1550,13 +1550,13 @@ def _next(interp, args, kwargs):
         return interp.call(interp.load_attr(it, "__next__"), [])
     if isinstance(it, AbsIter):
         k = it.__dict__.setdefault("count", 0)
-        it.count = k + 1
-        r = it.next(interp, z3.IntVal(k))
-        if r is _MISSING:
+        if interp.ctx.branch(z3.Bool(interp.ctx.fresh(f"{it.tag}.exhausted"))):
+            it.next(interp, z3.IntVal(k), True)
             if len(args) > 1:
                 return args[1]
             raise PyRaise(StopIteration())
-        return r
+        it.count = k + 1
+        return it.next(interp, z3.IntVal(k))
     hook = getattr(it, "next_model", None)
     if hook is not None:
         return hook(interp, args[1:] if len(args) > 1 else ())
